@@ -40,7 +40,23 @@ MUTATING_FORMS = {"A[B] = C", "A[B] += C", "A->a = B",
                   # loops whose body applies a documented mutator to A
                   "for v in values A do A->zz = v end",
                   "for k in keys A do remove(A, k) end",
-                  "for x in A do append(A, B); if length(A) > 6 then break end"}
+                  "for x in A do append(A, B); if length(A) > 6 then break end",
+                  "find(A, B, key = fn(x) do delete_at(A, 0); x end)",
+                  "find_last(A, B, key = fn(x) do delete_at(A, 0); "
+                  "delete_at(A, 0); x end)",
+                  "sorted(A, key = fn(x) do delete_at(A, 0); x end)",
+                  "sorted(A, cmp = fn(a, b) do delete_at(A, 0); "
+                  "compare(a, b) end)",
+                  "map_list(A, fn(x) do delete_at(A, 0); x end)",
+                  "filter(A, fn(x) do remove(A, x); TRUE end)",
+                  "for_each(A, fn(x) delete_at(A, 0))",
+                  "reduce(A, fn(a, b) do delete_at(A, 0); a end)",
+                  "[delete_at(A, 0) for x in A]",
+                  "for x in A do delete_at(A, 0) end",
+                  "<<remove(A, x) for x in A>>",
+                  "for k in A do remove(A, k) end",
+                  "for x in A do insert_at(A, 0, x); if length(A) > 9 then "
+                  "break end"}
 
 # Functions and forms that may hand back one of their argument objects:
 # selectors (the result is *chosen* among the arguments), conversions of a
